@@ -17,10 +17,60 @@ pub mod heapless {
         uninterp spec fn view(&self) -> Seq<u8>;
     }
 
+    impl<const N: usize> core::ops::Deref for Vec<u8, N> {
+        type Target = [u8];
+        #[verifier::external_body]
+        fn deref(&self) -> (r: &[u8])
+            ensures r@ == self@,
+        { unimplemented!() }
+    }
+
     impl<const N: usize> Vec<u8, N> {
+
+        /// type invariant of heapless::Vec (assumed): the length never exceeds the capacity
+        #[verifier::external_body]
+        pub broadcast proof fn len_le_capacity(&self)
+            ensures #[trigger] self@.len() <= N,
+        { unimplemented!() }
+
+        #[verifier::external_body]
+        pub fn len(&self) -> (r: usize)
+            ensures r == self@.len(), r <= N,
+        { unimplemented!() }
+
+        #[verifier::external_body]
+        pub fn capacity(&self) -> (r: usize)
+            ensures r == N,
+        { unimplemented!() }
+
+        #[verifier::external_body]
+        pub fn is_empty(&self) -> (r: bool)
+            ensures r == (self@.len() == 0),
+        { unimplemented!() }
+
+        #[verifier::external_body]
+        pub fn is_full(&self) -> (r: bool)
+            ensures r == (self@.len() == N),
+        { unimplemented!() }
+
+        #[verifier::external_body]
+        pub fn clear(&mut self)
+            ensures final(self)@ == Seq::<u8>::empty(),
+        { unimplemented!() }
+
+        #[verifier::external_body]
+        pub fn truncate(&mut self, len: usize)
+            ensures
+                len >= old(self)@.len() ==> final(self)@ == old(self)@,
+                len < old(self)@.len() ==> final(self)@ == old(self)@.subrange(0, len as int),
+        { unimplemented!() }
+
+        #[verifier::external_body]
+        pub fn as_slice(&self) -> (r: &[u8])
+            ensures r@ == self@,
+        { unimplemented!() }
         #[verifier::external_body]
         pub fn push(&mut self, item: u8) -> (r: Result<(), u8>)
-            requires old(self)@.len() <= N,
             ensures
                 final(self)@.len() <= N,
                 old(self)@.len() < N ==> r is Ok && final(self)@ == old(self)@.push(item),
@@ -29,7 +79,6 @@ pub mod heapless {
 
         #[verifier::external_body]
         pub fn extend_from_slice(&mut self, other: &[u8]) -> (r: Result<(), ()>)
-            requires old(self)@.len() <= N,
             ensures
                 final(self)@.len() <= N,
                 old(self)@.len() + other@.len() <= N ==> r is Ok && final(self)@ == old(self)@ + other@,
@@ -59,6 +108,49 @@ pub mod heapless_bytes {
     }
 
     impl<const N: usize> Bytes<N> {
+
+        /// type invariant of heapless_bytes::Bytes (assumed): the length never exceeds the capacity
+        #[verifier::external_body]
+        pub broadcast proof fn len_le_capacity(&self)
+            ensures #[trigger] self@.len() <= N,
+        { unimplemented!() }
+
+        #[verifier::external_body]
+        pub fn len(&self) -> (r: usize)
+            ensures r == self@.len(), r <= N,
+        { unimplemented!() }
+
+        #[verifier::external_body]
+        pub fn capacity(&self) -> (r: usize)
+            ensures r == N,
+        { unimplemented!() }
+
+        #[verifier::external_body]
+        pub fn is_empty(&self) -> (r: bool)
+            ensures r == (self@.len() == 0),
+        { unimplemented!() }
+
+        #[verifier::external_body]
+        pub fn is_full(&self) -> (r: bool)
+            ensures r == (self@.len() == N),
+        { unimplemented!() }
+
+        #[verifier::external_body]
+        pub fn clear(&mut self)
+            ensures final(self)@ == Seq::<u8>::empty(),
+        { unimplemented!() }
+
+        #[verifier::external_body]
+        pub fn truncate(&mut self, len: usize)
+            ensures
+                len >= old(self)@.len() ==> final(self)@ == old(self)@,
+                len < old(self)@.len() ==> final(self)@ == old(self)@.subrange(0, len as int),
+        { unimplemented!() }
+
+        #[verifier::external_body]
+        pub fn as_slice(&self) -> (r: &[u8])
+            ensures r@ == self@,
+        { unimplemented!() }
         #[verifier::external_body]
         pub fn new() -> (r: Self)
             ensures r@ == Seq::<u8>::empty(),
@@ -66,7 +158,6 @@ pub mod heapless_bytes {
 
         #[verifier::external_body]
         pub fn push(&mut self, item: u8) -> (r: Result<(), u8>)
-            requires old(self)@.len() <= N,
             ensures
                 final(self)@.len() <= N,
                 old(self)@.len() < N ==> r is Ok && final(self)@ == old(self)@.push(item),
@@ -75,7 +166,6 @@ pub mod heapless_bytes {
 
         #[verifier::external_body]
         pub fn extend_from_slice(&mut self, other: &[u8]) -> (r: Result<(), ()>)
-            requires old(self)@.len() <= N,
             ensures
                 final(self)@.len() <= N,
                 old(self)@.len() + other@.len() <= N ==> r is Ok && final(self)@ == old(self)@ + other@,
